@@ -95,6 +95,10 @@ def main(argv):
             print(f'{os.path.basename(sd.rstrip("/"))} {pid} {verdict} {r["wall"]}s', *r['lines'][:2], r['stderr'][-200:] if r['exit'] not in (0, 1) else '', sep='\n   ')
     elif cmd == 'all':
         root = os.path.join(HERE, 'seeded')
+        if '--root' in argv:
+            i = argv.index('--root')
+            root = os.path.join(HERE, argv[i + 1])
+            del argv[i:i + 2]
         only = argv[1:]
         for name in sorted(os.listdir(root)):
             sd = os.path.join(root, name)
